@@ -98,7 +98,7 @@ func c09(c *Ctx, p *Prog) {
 		c.Check(isFlat, "C09/R5", "comparison-fields:flattened", "", flatMethod.Name()+" is the Once-guarded flattening walk", "the comparison does not walk the flattened fields")
 	}
 
-	c09LessTable(c, p, lessFn, idxF)
+	c09LessTable(c, p, lessFn, idxF, "C09/R2")
 	c09Producer(c, p, orderF, idxF, flatMethod)
 	c09Comparators(c, p)
 	c09FlatCache(c, p, flatF, onceF)
@@ -151,8 +151,7 @@ func freeVarSourceCall(fn *ssa.Function, fv *ssa.FreeVar) *ssa.Call {
 	return out
 }
 
-func c09LessTable(c *Ctx, p *Prog, lessFn *ssa.Function, idxF *types.Var) {
-	const R = "C09/R2"
+func c09LessTable(c *Ctx, p *Prog, lessFn *ssa.Function, idxF *types.Var, R string) {
 	loops := naturalLoops(lessFn)
 	site := p.pos(lessFn.Pos())
 	if len(loops) != 1 {
